@@ -37,7 +37,8 @@ pub fn frame_of(r: &Rec) -> Vec<u8> {
     let mut rng = SplitMix::new(h64(&(r.ac, r.kind, r.val)));
     let alt_q = |v: u64| enc::ac13_q((200 * i + 50 + v % 200) as u16);
     let alt12_q = |v: u64| enc::ac12_q((200 * i + 50 + v % 200) as u16);
-    let chars = |v: u64| -> [u8; 8] { [(1 + i) as u8, 3, 1 + (v % 26) as u8, 48 + ((v / 26) % 10) as u8, 48 + ((v / 260) % 10) as u8, 32, 32, 32] };
+    // one identification in five carries a character code the 6-bit alphabet does not assign (garbled reception)
+    let chars = |v: u64| -> [u8; 8] { [(1 + i) as u8, 3, 1 + (v % 26) as u8, 48 + ((v / 26) % 10) as u8, 48 + ((v / 260) % 10) as u8, if v % 5 == 0 { [0u8, 27, 31, 33, 47, 58, 63][(v / 5 % 7) as usize] } else { 32 }, 32, 32] };
     let squawk = |v: u64| enc::id13((i + 1) as u8, (v % 8) as u8, ((v / 8) % 8) as u8, ((v / 64) % 8) as u8);
     match KINDS[r.kind as usize % KINDS.len()] {
         "df17-bds08" => enc::df17(5, a, &enc::me_ident(4, (v % 8) as u8, &chars(v))),
@@ -252,8 +253,10 @@ pub fn check_hist(ctx: &Ctx, pool: &Pool, hist: &[Rec]) -> Check {
 }
 
 fn history() -> impl Strategy<Value = Vec<Rec>> {
-    (1u8..=6, proptest::collection::vec((0u8..6, 0u8..KINDS.len() as u8, any::<u16>(), 0.0f64..3.0, 0u8..20), 1..120)).prop_map(|(nac, v)| {
-        let mut t = 1_700_000_000.0;
+    // clocks: Unix time, or time relative to the start of a recording (from 0 s, a fraction of a second, 1000 s)
+    let t0 = prop_oneof![4 => Just(1_700_000_000.0f64), 1 => Just(0.0f64), 1 => 0.0f64..1.0, 1 => Just(1000.0f64), 1 => Just(4_294_967_295.5f64)];
+    (1u8..=6, proptest::collection::vec((0u8..6, 0u8..KINDS.len() as u8, any::<u16>(), 0.0f64..3.0, 0u8..20), 1..120), t0).prop_map(|(nac, v, t0)| {
+        let mut t: f64 = t0;
         v.into_iter()
             .map(|(ac, kind, val, dt, back)| {
                 // mostly increasing timestamps, sometimes equal or slightly decreasing
@@ -262,6 +265,7 @@ fn history() -> impl Strategy<Value = Vec<Rec>> {
                     1 => 0.0,
                     _ => dt,
                 };
+                t = t.max(0.0);
                 Rec { ac: ac % nac, kind, val, ts: t }
             })
             .collect()
@@ -269,7 +273,7 @@ fn history() -> impl Strategy<Value = Vec<Rec>> {
 }
 
 pub fn run(ctx: &Ctx) {
-    ctx.set_rule("histories of 1-119 records from 1-6 aircraft (addresses sharing prefixes and suffixes) over 22 record kinds: DF17 identification / airborne / surface / ground velocity / airspeed / status / target state / operational status, DF18 airborne / surface / identification, DF0, 4, 5, 11, 16, DF20 with BDS 2,0 / 4,0 / the 5,0+6,0 conflict payload, DF21 with BDS 5,0 / 6,0, and DF19/24 records that carry no address; every value comes from a band owned by its aircraft, positions are injected per record; timestamps mostly increasing, sometimes equal or decreasing. Replayed through the real update_snapshot (hook H2) and read back as /all serialises it. Oracle: key set = addresses of the address-carrying records; count, firstseen, lastseen per key from independent bookkeeping; every non-null call sign, squawk, position, altitude, speed, angle, NACp of an entry occurs in the JSON of one of that aircraft's own records; the entry of each aircraft is identical when only its own records are fed. Non-trivial = >= 2 aircraft and >= 3 record kinds; distinct by hash of the history.");
+    ctx.set_rule("histories of 1-119 records from 1-6 aircraft (addresses sharing prefixes and suffixes) over 22 record kinds: DF17 identification / airborne / surface / ground velocity / airspeed / status / target state / operational status, DF18 airborne / surface / identification, DF0, 4, 5, 11, 16, DF20 with BDS 2,0 / 4,0 / the 5,0+6,0 conflict payload, DF21 with BDS 5,0 / 6,0, and DF19/24 records that carry no address; every value comes from a band owned by its aircraft, positions are injected per record; one identification in five carries an unassigned 6-bit character; clocks start at Unix time, at 0 s, within the first second, at 1000 s or beyond 2^32 s; timestamps mostly increasing, sometimes equal or decreasing. Replayed through the real update_snapshot (hook H2) and read back as /all serialises it. Oracle: key set = addresses of the address-carrying records; count, firstseen, lastseen per key from independent bookkeeping; every non-null call sign, squawk, position, altitude, speed, angle, NACp of an entry occurs in the JSON of one of that aircraft's own records; the entry of each aircraft is identical when only its own records are fed. Non-trivial = >= 2 aircraft and >= 3 record kinds; distinct by hash of the history.");
     ctx.assume("positions are attached by decode_position before update_snapshot in the application; the scenario injects them so that each record carries a unique value");
     ctx.assume("registration and typecode come from the aircraft database / address heuristics, not from records: outside the provenance check");
     let pool = Pool::new(16);
